@@ -99,9 +99,13 @@ def process_path_shape(src: str):
     return named_flag, walk_flag
 
 
+TAR_OPEN_UNWRAPS = None
+
 PRE_LOOP = (
     r'(#\[cfg\(all\(debug_assertions,\s?not\(test\)\)\)\] \{.*?\} \} )?'
-    r'let file: File = File::open\(path\)\.unwrap\(\); '
+    r'(?P<open>let file: File = File::open\(path\)\.unwrap\(\); |'
+    r'let file: File = match File::open\(path\) \{ Ok\(val\) => val, Err\(err\) => \{ '
+    r'let err_string = error_to_string\(&err, path\); return vec!\[ProcessPathResult::FileErr\(path\.clone\(\), err_string\)\]; \} \}; )'
     r'let mut archive: tar::Archive<File> = tar::Archive::<File>::new\(file\); '
     r'let entry_iter: tar::Entries<File> = match archive\.entries\(\) \{ Ok\(val\) => val, Err\(err\) => \{ '
     r'let err_string = error_to_string\(&err, path\); return vec!\[ProcessPathResult::FileErr\(path\.clone\(\), err_string\)\]; \} \}; '
@@ -134,7 +138,10 @@ def tar_shape(src: str):
         raise GenError("process_path_tar: the parameter `unparseable_are_text` is reassigned or shadowed")
     fb = flat(body)
     loop_text, lstart, lend = block_at(fb, r'for \(_i, entry_res\) in entry_iter\.enumerate\(\) \{', 'process_path_tar member loop')
-    if not re.fullmatch(PRE_LOOP, fb[:lstart]) or not re.fullmatch(
+    pm = re.fullmatch(PRE_LOOP, fb[:lstart])
+    global TAR_OPEN_UNWRAPS
+    TAR_OPEN_UNWRAPS = bool(pm) and pm.group('open').rstrip().endswith('.unwrap();')
+    if not pm or not re.fullmatch(
             r' (#\[cfg\(any\(debug_assertions, test\)\)\] \{ for \(i, result\) in results\.iter\(\)\.enumerate\(\) \{ \} \} )?results', fb[lend:]):
         raise GenError("process_path_tar: prologue/epilogue left the expected shape (open, tar::Archive::entries, loop, return results)")
     lm = re.fullmatch(LOOP_HEAD, loop_text.strip())
@@ -247,6 +254,9 @@ def generate(repo: str):
     L.append('/-- `main` (src/bin/s4.rs): `process_path(path, <this>)` -/')
     L.append(f'def mainUnparseableAreText : Bool := {b(main_flag)}')
     L.append('')
+    L.append('/-- `process_path_tar` opens the archive with `File::open(path).unwrap()` (`true`: an archive that cannot be opened aborts')
+    L.append('the program) or answers a failed open with one `FileErr` (`false`) -/')
+    L.append(f'def tarOpenUnwraps : Bool := {b(TAR_OPEN_UNWRAPS)}')
     L.append('/-- `process_path_tar`: `if !etype.is_file() { continue; }` -/')
     L.append('def tarSkipsNonRegular : Bool := true')
     L.append('/-- `process_path_tar`: `entry.size() == 0` gives `FileErrEmpty(path SEP lossy(subpath), Unparsable)`, before any classification -/')
